@@ -65,6 +65,12 @@ pub enum Op {
     Custom { kind: CustomKind, coef: Vec<f64>, script: Vec<Reent> },
     /// the library's cost closures applied to (output, target) as ordinary differentiable operations
     Cost(CostKind),
+    /// the library's activation closures (`activation::relu()` etc., which take their argument by
+    /// value) applied to a clone of the operand; `detach`: the clone is `.untracked()` first
+    Activation { act: Act, detach: bool },
+    /// `Array::from(Vec<Array>)` over clones (or same-shape reshape views) of the operands: a plain,
+    /// untracked array holding the stacked values
+    Stack { views: bool },
 }
 
 impl Op {
@@ -93,6 +99,9 @@ impl Op {
             Op::Custom { kind: CustomKind::Prod2Crate, .. } => "custom_prod2_crate_forward",
             Op::Custom { kind: CustomKind::NestedSq, .. } => "custom_nestedsq",
             Op::Custom { kind: CustomKind::CrateFwdNoBwd, .. } => "op_without_derivative_closure",
+            Op::Activation { detach: false, .. } => "activation_closure",
+            Op::Activation { detach: true, .. } => "activation_closure_on_untracked_clone",
+            Op::Stack { .. } => "stack",
             Op::Cost(CostKind::Mse) => "cost_mse",
             Op::Cost(CostKind::CrossEntropy) => "cost_cross_entropy",
         }
